@@ -44,6 +44,12 @@ pub struct Case {
     pub block: Option<u64>,
     /// run under the supervisor with one starved worker
     pub starve: Option<u64>,
+    /// copy the first file alone: `xcp s/f0 d/s/f0` (file to file) instead of the tree
+    #[serde(default)]
+    pub single: bool,
+    /// further options that must not matter: bit0 --fsync, bit1 --backup=numbered, bit2 --reflink=never, bit3 -v
+    #[serde(default)]
+    pub extra: u8,
 }
 
 fn mode_strategy() -> BoxedStrategy<u16> {
@@ -85,8 +91,10 @@ pub fn strategy() -> BoxedStrategy<Case> {
         gen::workers(),
         prop_oneof![2 => Just(None), 2 => Just(Some(4096u64)), 1 => Just(Some(65536u64))],
         prop::option::weighted(0.1, any::<u64>()),
+        prop::bool::weighted(0.25),
+        prop_oneof![3 => Just(0u8), 2 => 0u8..16],
     )
-        .prop_map(|(files, no_perms, no_timestamps, ownership, umask, parblock, workers, block, starve)| Case { files, no_perms, no_timestamps, ownership, umask, parblock, workers, block, starve })
+        .prop_map(|(files, no_perms, no_timestamps, ownership, umask, parblock, workers, block, starve, single, extra)| Case { files, no_perms, no_timestamps, ownership, umask, parblock, workers, block, starve, single, extra })
         .boxed()
 }
 
@@ -105,7 +113,7 @@ pub fn umask_of(c: &Case) -> u32 {
 
 pub fn ents_for(c: &Case) -> Vec<Ent> {
     let mut ents = vec![Ent::dir(b"s"), Ent::dir(b"d")];
-    if c.files.iter().any(|f| f.prior.is_some()) {
+    if c.single || c.files.iter().any(|f| f.prior.is_some()) {
         ents.push(Ent::dir(b"d/s"));
     }
     for (i, f) in c.files.iter().enumerate() {
@@ -156,7 +164,16 @@ pub fn args_for(c: &Case) -> Vec<Vec<u8>> {
     if c.ownership {
         a.push(s("--ownership"));
     }
-    a.extend([s("-r"), s("s"), s("d")]);
+    for (bit, flag) in [(0, "--fsync"), (1, "--backup=numbered"), (2, "--reflink=never"), (3, "-v")] {
+        if c.extra & (1 << bit) != 0 {
+            a.push(s(flag));
+        }
+    }
+    if c.single {
+        a.extend([s("s/f0"), s("d/s/f0")]);
+    } else {
+        a.extend([s("-r"), s("s"), s("d")]);
+    }
     a
 }
 
@@ -215,6 +232,9 @@ pub fn judge(c: &Case, rec: &mut Rec) -> Verdict {
     let bs = c.block.unwrap_or(1_000_000);
     let mut nontrivial = false;
     for (i, f) in c.files.iter().enumerate() {
+        if c.single && i > 0 {
+            break;
+        }
         let sp = sb.abs(format!("s/f{}", i).as_bytes());
         let dp = sb.abs(format!("d/s/f{}", i).as_bytes());
         let sm = match stat_one(&sp, false) {
@@ -237,7 +257,7 @@ pub fn judge(c: &Case, rec: &mut Rec) -> Verdict {
             if f.prior.is_some() { "overwrite" } else { "fresh" },
             if multi { "multiblock" } else { "1block" },
             if c.starve.is_some() { "starved" } else { "plain-run" }
-        );
+        ) + if c.single { "|single-file" } else { "" } + if c.extra != 0 { "|extra-opts" } else { "" };
         let new = rec.class(key);
         let subsec = MTIMES[f.mtime as usize % MTIMES.len()].1 != 0;
         if special || subsec || !f.xattrs.is_empty() || c.ownership || multi {
@@ -265,9 +285,11 @@ pub fn judge(c: &Case, rec: &mut Rec) -> Verdict {
                 }
             }
         } else {
+            // with a numbered backup the old file is renamed away and the destination is a fresh file
+            let fresh = f.prior.is_none() || c.extra & 2 != 0;
             let expect = match f.prior {
-                Some((pm, _, _)) => pm as u32,
-                None => 0o666 & !umask_of(c),
+                Some((pm, _, _)) if !fresh => pm as u32,
+                _ => 0o666 & !umask_of(c),
             };
             if dm.mode != expect {
                 return fail("no-perms-mode", format!("--no-perms: mode is {:o}, expected {:o} (previous/default)", dm.mode, expect));
@@ -323,6 +345,6 @@ impl Check for C10 {
         }
     }
     fn required_classes(&self, _tier: Tier) -> Vec<String> {
-        ["special4000", "special2000", "special1000", "mode0", "|xattr|", "|overwrite|", "multiblock", "starved", "|P", "T", "O|", "umask0|", "umask77|"].iter().map(|s| s.to_string()).collect()
+        ["special4000", "special2000", "special1000", "mode0", "|xattr|", "|overwrite|", "multiblock", "starved", "|P", "T", "O|", "umask0|", "umask77|", "single-file", "extra-opts"].iter().map(|s| s.to_string()).collect()
     }
 }
